@@ -547,7 +547,7 @@ impl<'a, R: Clone> AsyncGlobalCache<'a, R> {
         for (idx, evict_key) in order.iter().enumerate() {
             if let Some(entry) = self.cache.get(evict_key) {
                 let frequency = entry.2 as f64;
-                let position_weight = (order.len() - idx) as f64;
+                let position_weight = (idx + 1) as f64;
                 let score = frequency * position_weight;
 
                 if score < best_score {
@@ -589,7 +589,7 @@ impl<'a, R: Clone> AsyncGlobalCache<'a, R> {
         for (idx, evict_key) in order.iter().enumerate() {
             if let Some(entry) = self.cache.get(evict_key) {
                 let frequency = entry.2 as f64;
-                let position_weight = (order.len() - idx) as f64;
+                let position_weight = (idx + 1) as f64;
 
                 // Calculate age factor based on TTL
                 let age_factor = if let Some(ttl_secs) = self.ttl {
